@@ -319,7 +319,8 @@ TStrictProp == [][StrictStep]_tvars
 (* instants do.                                                             *)
 (***************************************************************************)
 KP == INSTANCE KeyProvider WITH Day <- 2 * Day, Gaps <- {}, Horizon <- 0, now <- 0, keys <- << >>,
-                                currentID <- 0, generatedAt <- 0, ret <- 0, issued <- << >>, seen <- {}
+                                currentID <- 0, generatedAt <- 0, ret <- 0, issued <- << >>, seen <- {},
+                                cookies <- << >>, draw <- "real"
 IssuedNow == obs \in {"rekey", "serve", "probe"} /\ rep.k \in {"ke", "ntp", "probe"}
 \* (a cookie that names no key the provider holds is C11's business: FreshCookiesOpen)
 Judged12(c) == c.key \in DOMAIN prov.keys /\ c.key \in DOMAIN aux.nas
